@@ -25,6 +25,7 @@ BINARIES = {
     "c20": ("zzverif/cmd/c20", False),
     "cachefile": ("zzverif/cmd/cachefile", False),
     "c10": ("zzverif/cmd/c10", True),
+    "prod": ("zzverif/cmd/prod", False),
     "pipe": ("vflow", True),
 }
 
@@ -608,6 +609,27 @@ def c16(tier):
                        "Oracle: exactly one datagram reaches the UDP listener, payload identical, source address = exporter, and the IP header captured on a raw IPPROTO_UDP socket has total length 20+8+n, UDP length 8+n, IHL 5, destination 127.0.0.1 and the target port. "
                        "pipe.c16: the ipfix and sflow pipelines with mirroring enabled under the scheduler: published payloads equal the standalone decodes (mirroring never changes what is published), the mirror goroutines receive every datagram unchanged, no race report.",
                   assumptions=PIPE_ASSUME + ["CAP_NET_RAW is required (present in this sandbox type); without it the space reports exhaustive=false", "IPv4 mirror targets only (the IPv6 path leaves the UDP checksum TODO in the repository and needs a routable IPv6 loopback)"], t0=t0)
+
+
+@check("C14")
+def c14(tier):
+    t0 = time.time()
+    b = build("prod")
+    d, env = sched_env("c14")
+    env.pop("GORACE", None)
+    res = [run_space(b, "prod.tcp", tier, env=env, hang_s=90), run_space(b, "prod.udp", tier, env=env, hang_s=90)]
+    import shutil
+    shutil.rmtree(d, ignore_errors=True)
+    return finish("C14", tier, res,
+                  rule="prod.tcp: the real Producer.Run -> RawSocket.setup (real YAML config: tcp, retry-max 0/1/2) -> inputMsg against a real loopback TCP sink; 6 messages handed over through an unbuffered channel (a completed hand-over means the previous message is finished); before each of messages 2..6 one action from {none, sink closes (FIN), sink resets (RST, SO_LINGER 0), sink listener down + reset, listener up}: every action sequence with at most 2 (thorough 3) faults; "
+                       "3 message sets (plain JSON; per-cent sequences 100% %d %s %% %; empty / 5 KB / 70 KB messages). Faults are injected while the producer is blocked on its input channel and are followed by a TCP_INFO barrier on the producer's own socket (no sleeps). "
+                       "Oracle: per sink connection the lines (split at newline; an unterminated tail of a dead connection is not a message) form an in-order, duplicate-free, byte-identical subsequence of the messages; losses <= messages handed over while the sink was down + 2 per fault; error counter 0 without faults; Run returns when the channel is closed. "
+                       "prod.udp: udp configuration, sink up/down per message (all 32 masks) x retry-max x message sets; every datagram is exactly the next message + newline. states = fault sequences executed, transitions = messages handed over.",
+                  assumptions=["the environment is the real Linux loopback TCP/UDP stack, not a model: every explored fault sequence is a real kernel trace",
+                               "only producer.go + rawSocket.go are decided; the Kafka (sarama, segmentio), NSQ and NATS drivers need a broker and cannot be exercised offline",
+                               "a write the kernel accepted on a connection the peer has already closed is lost silently (TCP semantics): the statement allows a bounded gap, so loss is bounded, not excluded",
+                               "mid-write faults (peer closing while a large write is in flight) are not injected"],
+                  traces_validated=sum(r.evals for r in res), t0=t0)
 
 
 def main(argv):
